@@ -704,15 +704,15 @@ fn homogeneous(c: &Case) -> bool {
 }
 
 /// Closed-form bound on the number of pool-level lookups of one resolution, proved in
-/// `Proofs/C19.lean` (`queries_bounded`):  `(1 + MAX_CNAME_LOOKUPS) * (1 + T)` with
-/// `T = (1 + labels * (1 + 2 * ns))^nl - 1`, saturating.
-pub fn lookup_bound(nl: u32, labels: u128, ns: u128) -> u128 {
-    let base = 1u128.saturating_add(labels.saturating_mul(1 + 2 * ns));
+/// `Proofs/C19.lean` (`queries_bounded`):  `B(L, N) = (MAX_CNAME_LOOKUPS + 2) * (1 + L * (1 + 2 N))^(L + 1)`
+/// with `L = ns_recursion_limit`, `N` = NS records per response; saturating.
+pub fn lookup_bound(nl: u32, ns: u128) -> u128 {
+    let base = 1u128.saturating_add((nl as u128).saturating_mul(1 + 2 * ns));
     let mut p = 1u128;
-    for _ in 0..nl {
+    for _ in 0..=nl {
         p = p.saturating_mul(base);
     }
-    65u128.saturating_mul(p)
+    66u128.saturating_mul(p)
 }
 
 fn case_params(c: &Case) -> (u128, u128, u128) {
@@ -799,10 +799,14 @@ fn exec_res(line: &str, t: &[&str], rec: &mut Recorder) {
 
     // ---- the property's oracle, from the ground truth only
     let truth = Truth::compute(&case, true);
-    let (labels, ns, addrs) = case_params(&case);
-    let bound = lookup_bound(case.nl as u32, labels, ns).saturating_mul(addrs.max(1)).saturating_mul(2);
+    // every lookup tries each address of its pool at most once (no truncation, no busy back-off here);
+    // a pool has at most (NS records) x (address records in the internet + roots) entries
+    let (_labels, ns, addrs) = case_params(&case);
+    let bound = lookup_bound(case.nl as u32, ns).saturating_mul((ns.max(1)).saturating_mul(addrs.max(1)));
     let mut any_send = false;
-    let mut injected_seen = false;
+    // addresses contacted although nobody legitimately made them name servers, through the
+    // foreign-owner shape of the known finding (consequences of the same root cause get the same class)
+    let mut flagged: BTreeSet<IpAddr> = BTreeSet::new();
     for (k, o) in outs.iter().enumerate() {
         rec.stat(&format!("answer.{}", o.class));
         // (1) contacted addresses
@@ -832,6 +836,10 @@ fn exec_res(line: &str, t: &[&str], rec: &mut Recorder) {
                 Event::Dead(_) => truth.delegated.contains_key(ip),
             };
             if !ok {
+                let class = class_ns_addr(&case, ip);
+                if class == CLASS_NSADDR {
+                    flagged.insert(*ip);
+                }
                 rec.fail(
                     idx,
                     format!(
@@ -842,7 +850,7 @@ fn exec_res(line: &str, t: &[&str], rec: &mut Recorder) {
                             Event::Dead(_) => "unreachable".into(),
                         }
                     ),
-                    class_ns_addr(&case, ip),
+                    class,
                 );
             }
         }
@@ -850,13 +858,21 @@ fn exec_res(line: &str, t: &[&str], rec: &mut Recorder) {
         for (sec, r) in &o.records {
             let canon = canon_record(r);
             if !truth.attributable(&case, &canon) {
-                let class = if o.class == "ok" { "" } else { CLASS_NEG };
+                let said_by_flagged = Truth::responses(&case).iter().any(|(g, _, resp)| {
+                    case.groups[*g].ips.iter().any(|ip| flagged.contains(ip)) && resp.all().any(|x| canon_rec(&case, x) == canon)
+                });
+                let class = if o.class != "ok" {
+                    CLASS_NEG
+                } else if said_by_flagged {
+                    CLASS_NSADDR
+                } else {
+                    ""
+                };
                 rec.fail(
                     idx,
                     format!("query {k}: returned record {sec}:{canon} whose owner is outside every zone delegated to a server that said it ({})", o.class),
                     class,
                 );
-                injected_seen = true;
             }
             if let Some(ip) = r.data.ip_addr() {
                 if denied(&case.deny_ans, &case.allow_ans, &ip) {
@@ -870,7 +886,6 @@ fn exec_res(line: &str, t: &[&str], rec: &mut Recorder) {
         }
         rec.stat(&format!("sends.{}", match n_sends { 0 => "0", 1..=3 => "1-3", 4..=9 => "4-9", 10..=29 => "10-29", _ => "30+" }));
     }
-    let _ = injected_seen;
     // non-trivial: the recursor had to follow at least one delegation and the internet contains at least one
     // record that is out of bailiwick for the server saying it, or a cycle / lame delegation made it fail
     let hostile = Truth::responses(&case).iter().any(|(g, _, r)| r.all().any(|x| !truth.in_some_zone(&case, *g, x.name)));
@@ -909,6 +924,12 @@ pub fn run(o: &Opts, rec: &mut Recorder) {
     for l in o.pre_lines.clone() {
         exec(&l, rec);
         rec.corpus_cases += 1;
+    }
+    if let Some(dir) = std::env::var_os("C19_DUMP_SCENARIOS") {
+        for (name, c) in gen::scenarios() {
+            let path = std::path::Path::new(&dir).join(format!("{name}.case"));
+            std::fs::write(path, format!("# hand-built adversarial internet: {name}\n{}\n", c.line())).expect("dump");
+        }
     }
     let mut r = Rng::new(o.seed);
     let n = o.n(400, 6000);
@@ -1525,10 +1546,8 @@ pub mod gen {
     }
 
     pub fn case(r: &mut Rng, i: usize) -> String {
-        let sc = scenarios();
-        if i < sc.len() {
-            return sc[i].1.line();
-        }
+        // the hand-built scenarios live in corpus/C19/*.case (written by C19_DUMP_SCENARIOS) and run first
+        let _ = i;
         random_world(r).line()
     }
 
